@@ -309,8 +309,16 @@ func (g *gen) changeParams() {
 	if len(val) > 60 {
 		val = val[:60]
 	}
-	_, err := w.Authority(c.msg())
 	key := fmt.Sprintf("%s.%s", c.name, fname)
+	if g.sweep == nil && r.Chance(1, 4) {
+		// the same change as part of a proposal whose later message fails: executed, then dropped with its branch
+		if err := w.AuthorityRolledBack(c.msg()); err == nil {
+			g.run.Count("params:executed-then-rolled-back", 1)
+			h.Logf("params %s=%s executed on a dropped branch", key, val)
+		}
+		return
+	}
+	_, err := w.Authority(c.msg())
 	if err != nil {
 		g.run.Count("params:rejected-by-validation", 1)
 		h.Logf("params %s=%s rejected: %v", key, val, err)
@@ -753,7 +761,7 @@ func main() {
 	sort.Strings(ks)
 	run.Extra("msg_types", ks)
 	kindsMu.Unlock()
-	for _, c := range []string{"params:accepted", "params:rejected-by-validation", "authority:transition-proposed", "blocks-compared-across-replicas", "sweep:param-values-accepted", "replica-restarted-from-db", "checktx-on-primary-only"} {
+	for _, c := range []string{"params:accepted", "params:rejected-by-validation", "authority:transition-proposed", "blocks-compared-across-replicas", "sweep:param-values-accepted", "replica-restarted-from-db", "checktx-on-primary-only", "params:executed-then-rolled-back"} {
 		run.Require(c, 1)
 	}
 	run.Require("msg-types-exercised", 33) // 30 band Msg types by tx + bank/staking; the other 9 (UpdateParams x7 incl. oracle by authority, TransitionGroup, ForceTransitionGroup) go through the authority path
